@@ -61,4 +61,18 @@ theorem resolve_identity_without_links_partial (cfg : Cfg) (hnl : NoLinksSeen cf
 /-- the empty path is rejected -/
 theorem resolve_empty (cfg : Cfg) (w : World) : resolvePathWithInfo cfg [] w = (w, .error .emptyPath) := rfl
 
+/-- T16.4 (link-free trees, OS model behind PrefixFS) exactness: on a well-formed disk whose base
+tree holds no symlink, for every absolute name in any spelling and under any fault plan, resolution
+changes nothing on disk and, when it returns, returns the cleaned name — which on such a tree is
+the path the operating system resolves the name to (every component is a directory entry or is
+missing: `SimOSWalk.namei_cases`). The hypothesis `NoLinksSeen` of T16.3 is discharged here. -/
+theorem resolve_exact_linkfree_partial (bk kk : Key) (hbk : PKey bk) (hkk : PKey kk)
+    (hne1 : bk ≠ []) (hne2 : kk ≠ []) (hd1 : ¬ bk <+: kk) (hd2 : ¬ kk <+: bk)
+    (w : World) (hg : OSGood bk kk w.fs) (name : Path) (habs : isAbs name = true) :
+    (realPath (osCfg bk kk) name w).1.fs = w.fs ∧
+      ∀ r, (realPath (osCfg bk kk) name w).2 = .ok r → r = clean name := by
+  obtain ⟨k, hk, hname⟩ := clean_abs habs
+  have h := (sat_realPath (S := osSim bk kk hbk hkk hne1 hne2 hd1 hd2) (w := w) hg hk hname).elim
+  exact ⟨h.1.fs, fun r hr => (h.2 r hr).trans hname.symm⟩
+
 end Props.C16
